@@ -776,3 +776,6 @@ func vLoadedState(passphrase string, tweak func(cfg *AppConfigFile)) (*RuntimeSt
 	state.dbDone <- struct{}{}
 	return state, dataDir
 }
+
+func bigInt(i int64) *big.Int { return big.NewInt(i) }
+func randReader() io.Reader   { return rand.Reader }
